@@ -314,10 +314,11 @@ def check_first(run, F):
         t = dtree.body_table(fn.hir, cl[0], N.self_env(fn))
         upd = ('ext = Some(a0)', 'ext_idx = Some(pos)')
         adv = ('pos AddAssign 1',)
-        cmpc = 'a0.partial_cmp(ext) is Some(Ordering::%s)' % rel
+        # `partial_cmp == Some(Greater)`, `v > max`, `matches!(..)`: one relation
+        cmpc, ncmp = ('(ext < a0)', '(a0 <= ext)') if rel == 'Greater' else ('(a0 < ext)', '(ext <= a0)')
         g = ['VALID(a0)'] if guarded else []
         want = N.T((g + ['VALID(ext)', cmpc], '()', upd + adv),
-                   (g + ['VALID(ext)', '!' + cmpc], '()', adv),
+                   (g + ['VALID(ext)', ncmp], '()', adv),
                    (g + ['!VALID(ext)'], '()', upd + adv))
         if guarded:
             want |= N.T((['!VALID(a0)'], '()', adv))
